@@ -647,9 +647,10 @@ class RevisionSpec_before(RevisionSpec):
             raise InvalidRevisionSpec(
                 self.user_spec, branch, "cannot go before the null: revision"
             )
-        if r.revno is None:
-            # We need to use the repository history here
-            rev = branch.repository.get_revision(r.rev_id)
+        if r.revno is None or r.branch is not branch:
+            # We need to use the repository history here (the number of a
+            # revision of another branch says nothing about this branch)
+            rev = r.branch.repository.get_revision(r.rev_id)
             if not rev.parent_ids:
                 revision_id = revision.NULL_REVISION
             else:
@@ -1068,8 +1069,11 @@ class RevisionSpec_mainline(RevisionIDSpec):
 
             spec_branch = Branch.open(revspec.get_branch())
         revision_id = revspec.as_revision_id(spec_branch)
-        graph = context_branch.repository.get_graph()
-        result = graph.find_lefthand_merger(revision_id, context_branch.last_revision())
+        with context_branch.lock_read():
+            graph = context_branch.repository.get_graph()
+            result = graph.find_lefthand_merger(
+                revision_id, context_branch.last_revision()
+            )
         if result is None:
             raise InvalidRevisionSpec(self.user_spec, context_branch)
         return result
